@@ -320,6 +320,19 @@ func MakePkt(kind string) *astits.Packet {
 	case "stalebig": // reused struct: HasPayload unset but a stale payload that would not fit is still attached
 		return &astits.Packet{Header: astits.PacketHeader{PID: 0x300, HasAdaptationField: true, ContinuityCounter: 2},
 			AdaptationField: &astits.PacketAdaptationField{HasPCR: true, PCR: cr(5, 5)}, Payload: make([]byte, 184)}
+	case "scr1", "scr2", "scr3", "teiprio": // every value of the header's own small fields: scrambling control 1..3, transport_error + priority
+		h := astits.PacketHeader{PID: 0x300, HasPayload: true, ContinuityCounter: 10}
+		switch kind {
+		case "scr1":
+			h.TransportScramblingControl = 1
+		case "scr2":
+			h.TransportScramblingControl = 2
+		case "scr3":
+			h.TransportScramblingControl = 3
+		default:
+			h.TransportErrorIndicator, h.TransportPriority = true, true
+		}
+		return &astits.Packet{Header: h, Payload: bytes.Repeat([]byte{0x6b}, 184)}
 	case "stalefit": // reused struct: HasPayload unset, a short stale payload still attached (everything fits 188 bytes)
 		return &astits.Packet{Header: astits.PacketHeader{PID: 0x300, HasAdaptationField: true, ContinuityCounter: 6},
 			AdaptationField: &astits.PacketAdaptationField{HasPCR: true, PCR: cr(6, 6)}, Payload: bytes.Repeat([]byte{0x19}, 20)}
